@@ -94,6 +94,8 @@ type FnCtx struct {
 	i2fArgs, f2iArgs []string
 	forceSweep bool
 	usedSpecs map[string]bool
+	transients []transientIns
+	localChans []*localChan
 	indexTerms []string
 	frameMode bool
 	rangeKeys map[int]string
@@ -520,6 +522,7 @@ func (f *FnCtx) runTop() {
 	}
 	fr.checkTypeInvariants(ret.st)
 	fr.checkLockBalance(ret.st)
+	fr.checkTransients(ret.st)
 	fr.checkCtorInvariants(ret)
 	fr.checkFrame(ret.st)
 }
